@@ -139,7 +139,7 @@ impl Compiler {
         self.builder.set_span(block.span);
 
         // Push a new scope
-        self.builder.emit(Op::PushScope);
+        self.emit_push_scope();
 
         if block.body.is_empty() && self.track_completion {
             // Empty block has completion value undefined
@@ -150,7 +150,7 @@ impl Compiler {
         }
 
         // Pop scope
-        self.builder.emit(Op::PopScope);
+        self.emit_pop_scope();
 
         Ok(())
     }
@@ -322,7 +322,7 @@ impl Compiler {
     /// Compile for loop without per-iteration bindings (var or expression init)
     fn compile_for_simple(&mut self, for_stmt: &ForStatement) -> Result<(), JsError> {
         // Push scope for loop variable
-        self.builder.emit(Op::PushScope);
+        self.emit_push_scope();
 
         // Compile init
         if let Some(init) = &for_stmt.init {
@@ -381,7 +381,7 @@ impl Compiler {
         self.pop_loop();
 
         // Pop scope
-        self.builder.emit(Op::PopScope);
+        self.emit_pop_scope();
 
         Ok(())
     }
@@ -406,7 +406,7 @@ impl Compiler {
         }
 
         // Push outer scope for the init
-        self.builder.emit(Op::PushScope);
+        self.emit_push_scope();
 
         // Compile init (first iteration's values)
         if let Some(ForInit::Variable(decl)) = &for_stmt.init {
@@ -423,13 +423,13 @@ impl Compiler {
         }
 
         // Pop the init scope (we'll create per-iteration scopes in the loop)
-        self.builder.emit(Op::PopScope);
+        self.emit_pop_scope();
 
         // Loop start - push per-iteration scope and copy values from registers
         let loop_start = self.builder.current_offset();
 
         // Push per-iteration scope
-        self.builder.emit(Op::PushScope);
+        self.emit_push_scope();
 
         // Declare and initialize vars from registers (these are the values closures will capture)
         for (name, reg) in &var_regs {
@@ -489,7 +489,7 @@ impl Compiler {
         }
 
         // Pop per-iteration scope
-        self.builder.emit(Op::PopScope);
+        self.emit_pop_scope();
 
         // Jump back to loop start
         self.builder.emit_jump_to(loop_start);
@@ -499,7 +499,8 @@ impl Compiler {
             self.builder.patch_jump(jump);
         }
 
-        // If jumping out due to test failure, need to pop scope
+        // If jumping out due to test failure, need to pop scope (the static depth was
+        // already adjusted by the PopScope of the fall-through path above)
         self.builder.emit(Op::PopScope);
 
         // Pop loop context
@@ -518,7 +519,7 @@ impl Compiler {
         self.builder.set_span(for_in.span);
 
         // Push scope
-        self.builder.emit(Op::PushScope);
+        self.emit_push_scope();
 
         // Compile the right side (object to iterate)
         let obj_reg = self.builder.alloc_register()?;
@@ -583,7 +584,7 @@ impl Compiler {
         self.builder.free_register(obj_reg);
 
         // Pop scope
-        self.builder.emit(Op::PopScope);
+        self.emit_pop_scope();
 
         Ok(())
     }
@@ -593,7 +594,7 @@ impl Compiler {
         self.builder.set_span(for_of.span);
 
         // Push scope
-        self.builder.emit(Op::PushScope);
+        self.emit_push_scope();
 
         // Compile the right side (iterable)
         let obj_reg = self.builder.alloc_register()?;
@@ -705,7 +706,7 @@ impl Compiler {
         self.builder.free_register(obj_reg);
 
         // Pop scope
-        self.builder.emit(Op::PopScope);
+        self.emit_pop_scope();
 
         Ok(())
     }
@@ -919,7 +920,7 @@ impl Compiler {
             self.builder.set_span(handler.span);
 
             // Push scope for catch variable
-            self.builder.emit(Op::PushScope);
+            self.emit_push_scope();
 
             // Bind exception to parameter
             if let Some(param) = &handler.param {
@@ -938,7 +939,7 @@ impl Compiler {
             }
 
             // Pop scope
-            self.builder.emit(Op::PopScope);
+            self.emit_pop_scope();
 
             // Entering the catch block re-registered this statement's finally block as a
             // finally-only handler (so that break/continue/throw inside the catch body still
@@ -2792,7 +2793,7 @@ impl Compiler {
         self.builder.free_register(existing_reg);
 
         // Push a new scope for the namespace body
-        self.builder.emit(Op::PushScope);
+        self.emit_push_scope();
 
         // Compile the namespace body statements
         for stmt in decl.body.iter() {
@@ -2808,7 +2809,7 @@ impl Compiler {
         }
 
         // Pop the namespace scope
-        self.builder.emit(Op::PopScope);
+        self.emit_pop_scope();
 
         self.builder.free_register(ns_obj);
         Ok(())
